@@ -565,6 +565,7 @@ def oracle_c02(nodes, ev, outcomes, states_end, states_settled, stop, viol, rec,
             V('state:two-final-states', {'component': n, 'states': lst})
     # 2./3. model
     launched = set(e[3] for e in ev if e[2] == 'submit')  # ComponentState.run() was called (not: put down unlaunched)
+    hook_at = min([e[0] for e in ev if e[2] == 'hook-complete'] or [None], key=lambda x: (x is None, x))
     model = {}
     unrecoverable = []
     for n in topo(nodes):
@@ -618,8 +619,9 @@ def oracle_c02(nodes, ev, outcomes, states_end, states_settled, stop, viol, rec,
             model[n] = 'component_shutdown'
             continue
         reason = effective_exit(nd, hist.get(n))
-        if reason is None and n in ext and not hist.get(n):
-            # stopped by the controller before it ever ran (stage completion hook, stage being stopped)
+        if reason is None and n in ext and not hist.get(n) and hook_at is not None and ext[n] > hook_at:
+            # stopped before it ever ran because the stage-completion hook declared the stage complete (a shutdown the
+            # *scheduler* decides for a pending component is judged by the rules below, not waved through here)
             model[n] = {'component_shutdown'}
             continue
         if reason is None:
@@ -906,6 +908,8 @@ def run_case(case, schedule, opts):
                 def completion_hook(stage_index, directory):
                     done = (K.clock - t_hook0) >= t_done
                     if done:
+                        if not REC.counters.get('fault.completion_hook_true'):
+                            REC.ev('hook-complete', 'stage%d' % stage_index, None)
                         REC.count('fault.completion_hook_true')
                     return done
 
